@@ -101,12 +101,89 @@ theorem nodeCol_eq (k r1 r2 f : Nat) (h64 : f ≤ 64) (h1 : r1 < f) : Gen.C15.no
     | rw [Nat.div_eq_of_lt h1, Nat.add_zero]
     | (have h0 := float_offset_zero f h64 r1 h1; have h2 := Nat.div_eq_of_lt h1; simp [h0, h2, Nat.mul_comm])
 
+/-! ### Obligations on the regenerated keyword arithmetic and BN_* bookkeeping (deepening round)
+
+  They are *round-trip* laws, not canonical forms: any pair of formulas in compress / expand that undo each other
+  passes, a pair that does not (a shifted reference pixel, a keyword divided that was not multiplied, …) fails. -/
+
+/-- the regenerated keyword arithmetic, over ℝ -/
+noncomputable def genHdr : HdrArith ℝ :=
+  { crpixC1 := Gen.C15.crpixC1, crpixC2 := Gen.C15.crpixC2, crpixE1 := Gen.C15.crpixE1, crpixE2 := Gen.C15.crpixE2,
+    keyC1 := Gen.C15.keyC1, keyC2 := Gen.C15.keyC2, keyE1 := Gen.C15.keyE1, keyE2 := Gen.C15.keyE2,
+    upA1 := Gen.C15.upA1, upB1 := Gen.C15.upB1, upA2 := Gen.C15.upA2, upB2 := Gen.C15.upB2,
+    dnA1 := Gen.C15.dnA1, dnB1 := Gen.C15.dnB1, dnA2 := Gen.C15.dnA2, dnB2 := Gen.C15.dnB2 }
+
+/-- the regenerated BN_* bookkeeping -/
+def genBn : BnArith :=
+  { cfac := Gen.C15.bnCfac, npx1 := Gen.C15.bnNpx1, npx2 := Gen.C15.bnNpx2, rpx1 := Gen.C15.bnRpx1,
+    rpx2 := Gen.C15.bnRpx2, outRows := Gen.C15.outRows, outCols := Gen.C15.outCols, deleted := Gen.C15.bnDeleted }
+
+/-- unfolds a regenerated real-mode definition (or its hand fallback) and closes a field identity -/
+macro "hdr_tac" : tactic => `(tactic|
+  (simp only [Gen.C15.crpixC1, Gen.C15.crpixC2, Gen.C15.crpixE1, Gen.C15.crpixE2, Gen.C15.upA1, Gen.C15.upB1, Gen.C15.upA2,
+      Gen.C15.upB2, Gen.C15.dnA1, Gen.C15.dnB1, Gen.C15.dnA2, Gen.C15.dnB2, Aegean.Model.C15.crpixC1Hand,
+      Aegean.Model.C15.crpixC2Hand, Aegean.Model.C15.crpixE1Hand, Aegean.Model.C15.crpixE2Hand,
+      Aegean.Model.C15.upHand, Aegean.Model.C15.dnHand, R.real_ofNat]
+   push_cast
+   field_simp
+   try ring))
+
+/-- **CRPIX1 round trip**: expand's formula applied to compress's result gives the original reference pixel -/
+theorem crpix1_roundtrip (c1 c2 f : ℝ) (hf : f ≠ 0) :
+    Gen.C15.crpixE1 (Gen.C15.crpixC1 c1 c2 f) (Gen.C15.crpixC2 c1 c2 f) f = c1 := by hdr_tac
+theorem crpix2_roundtrip (c1 c2 f : ℝ) (hf : f ≠ 0) :
+    Gen.C15.crpixE2 (Gen.C15.crpixC1 c1 c2 f) (Gen.C15.crpixC2 c1 c2 f) f = c2 := by hdr_tac
+/-- **scale round trips**: what expand does to CDELTi (A) / CDi_i (B) undoes what compress did -/
+theorem scaleA1_roundtrip (v f : ℝ) (hf : f ≠ 0) : Gen.C15.dnA1 (Gen.C15.upA1 v f) f = v := by hdr_tac
+theorem scaleB1_roundtrip (v f : ℝ) (hf : f ≠ 0) : Gen.C15.dnB1 (Gen.C15.upB1 v f) f = v := by hdr_tac
+theorem scaleA2_roundtrip (v f : ℝ) (hf : f ≠ 0) : Gen.C15.dnA2 (Gen.C15.upA2 v f) f = v := by hdr_tac
+theorem scaleB2_roundtrip (v f : ℝ) (hf : f ≠ 0) : Gen.C15.dnB2 (Gen.C15.upB2 v f) f = v := by hdr_tac
+
+/-- **keyword dispatch**, axis 1: with only CDELT1 it is CDELT1 that is rescaled, with only CD1_1 it is CD1_1, with
+    both it is one of them and the same one in compress and in expand (evaluated on the regenerated chains) -/
+theorem key1_table : Gen.C15.keyC1 1 0 = 1 ∧ Gen.C15.keyC1 0 1 = 2 ∧ (Gen.C15.keyC1 1 1 = 1 ∨ Gen.C15.keyC1 1 1 = 2) ∧
+    Gen.C15.keyE1 1 0 = 1 ∧ Gen.C15.keyE1 0 1 = 2 ∧ Gen.C15.keyE1 1 1 = Gen.C15.keyC1 1 1 := by decide
+theorem key2_table : Gen.C15.keyC2 1 0 = 1 ∧ Gen.C15.keyC2 0 1 = 2 ∧ (Gen.C15.keyC2 1 1 = 1 ∨ Gen.C15.keyC2 1 1 = 2) ∧
+    Gen.C15.keyE2 1 0 = 1 ∧ Gen.C15.keyE2 0 1 = 2 ∧ Gen.C15.keyE2 1 1 = Gen.C15.keyC2 1 1 := by decide
+/-- with neither keyword both functions refuse (code 0) -/
+theorem key_none : Gen.C15.keyC1 0 0 = 0 ∧ Gen.C15.keyC2 0 0 = 0 ∧ Gen.C15.keyE1 0 0 = 0 ∧ Gen.C15.keyE2 0 0 = 0 := by decide
+
+theorem gen_hdr_laws : HdrLaws genHdr :=
+  ⟨crpix1_roundtrip, crpix2_roundtrip, scaleA1_roundtrip, scaleB1_roundtrip, scaleA2_roundtrip, scaleB2_roundtrip,
+   key1_table, key2_table⟩
+
+/-- unfolds the regenerated BN_* bookkeeping (or its hand fallback) -/
+macro "bn_tac" : tactic => `(tactic|
+  first
+    | rfl
+    | (simp [Gen.C15.bnCfac, Gen.C15.bnNpx1, Gen.C15.bnNpx2, Gen.C15.bnRpx1, Gen.C15.bnRpx2, Gen.C15.outRows,
+         Gen.C15.outCols, Gen.C15.bnDeleted, Aegean.Model.C15.bnCfacHand, Aegean.Model.C15.bnNpx1Hand,
+         Aegean.Model.C15.bnNpx2Hand, Aegean.Model.C15.bnRpx1Hand, Aegean.Model.C15.bnRpx2Hand,
+         Aegean.Model.C15.outRowsHand, Aegean.Model.C15.outColsHand, Aegean.Model.C15.bnDeletedHand]))
+
+/-- BN_CFAC holds the factor, BN_RPX1 / BN_RPX2 the two residuals -/
+theorem bn_cfac (f n1 n2 lx ly : Nat) : Gen.C15.bnCfac f n1 n2 lx ly = f := by bn_tac
+theorem bn_rpx1 (f n1 n2 lx ly : Nat) : Gen.C15.bnRpx1 f n1 n2 lx ly = lx := by bn_tac
+theorem bn_rpx2 (f n1 n2 lx ly : Nat) : Gen.C15.bnRpx2 f n1 n2 lx ly = ly := by bn_tac
+/-- **shape round trip**: the two mgrid bounds of expand, read from the BN_NPX* cards compress wrote, are the
+    original (NAXIS2, NAXIS1) -/
+theorem bn_shape_roundtrip (f n1 n2 lx ly : Nat) :
+    Gen.C15.outRows (Gen.C15.bnNpx1 f n1 n2 lx ly) (Gen.C15.bnNpx2 f n1 n2 lx ly) = n2 ∧
+    Gen.C15.outCols (Gen.C15.bnNpx1 f n1 n2 lx ly) (Gen.C15.bnNpx2 f n1 n2 lx ly) = n1 := by
+  constructor <;> bn_tac
+/-- expand deletes all five BN_* cards -/
+theorem bn_all_deleted : Gen.C15.bnDeleted 0 = 31 := by decide
+
+theorem gen_bn_laws : BnLaws genBn :=
+  ⟨bn_cfac, bn_rpx1, bn_rpx2, fun f n1 n2 lx ly => (bn_shape_roundtrip f n1 n2 lx ly).1,
+   fun f n1 n2 lx ly => (bn_shape_roundtrip f n1 n2 lx ly).2, bn_all_deleted⟩
+
 /-! ### The round trip under study -/
 
 /-- `expand(compress(img, f))` with the regenerated index arithmetic, for node-coordinate functions
     `nodeRow nodeCol` -/
 noncomputable abbrev rtWith (nodeRow nodeCol : Nat → Nat → Nat → Nat → Nat) (f : Nat) (h : Hdr ℝ) (im : Img ℝ) :=
-  roundTrip Gen.C15.nxOf Gen.C15.nyOf Gen.C15.lcxOf Gen.C15.lcyOf nodeRow nodeCol f h im
+  roundTrip Gen.C15.nxOf Gen.C15.nyOf Gen.C15.lcxOf Gen.C15.lcyOf nodeRow nodeCol genHdr genBn f h im
 
 /-- … with the node coordinates exactly as the code computes them -/
 noncomputable abbrev rt (f : Nat) (h : Hdr ℝ) (im : Img ℝ) := rtWith Gen.C15.nodeRow Gen.C15.nodeCol f h im
@@ -133,12 +210,12 @@ theorem rt_value {nodeRow nodeCol : Nat → Nat → Nat → Nat → Nat} (f : Na
     (wf : WF h im) (N : NodesOK nodeRow nodeCol f im.rows im.cols) {h' : Hdr ℝ} {out : Img ℝ}
     (hrt : rtWith nodeRow nodeCol f h im = .ok (h', out)) :
     h' = { naxis1 := h.naxis1, naxis2 := h.naxis2,
-           crpix1 := ((h.crpix1 + f - 1) / f - 1) * f + 1, crpix2 := ((h.crpix2 + f - 1) / f - 1) * f + 1,
+           crpix1 := h.crpix1, crpix2 := h.crpix2,
            cdelt1 := h.cdelt1, cd11 := h.cd11, cdelt2 := h.cdelt2, cd22 := h.cd22, bn := none, other := h.other } ∧
     out = { rows := h.naxis2, cols := h.naxis1,
             px := interp2 (fun k => k * f) (fun k => k * f) ((im.rows + f - 1) / f + 1) ((im.cols + f - 1) / f + 1)
                     (cpx f im) } := by
-  have e := roundTrip_eq gen_idx_laws f hf h im wf N.1 N.2
+  have e := roundTrip_eq gen_idx_laws gen_hdr_laws gen_bn_laws f hf h im wf N.1 N.2
   unfold rtWith at hrt
   rw [e] at hrt
   have := Except.ok.inj hrt
@@ -154,7 +231,7 @@ theorem rt_value {nodeRow nodeCol : Nat → Nat → Nat → Nat → Nat} (f : Na
 theorem succeeds {nodeRow nodeCol : Nat → Nat → Nat → Nat → Nat} (f : Nat) (hf : 0 < f) (h : Hdr ℝ) (im : Img ℝ)
     (wf : WF h im) (N : NodesOK nodeRow nodeCol f im.rows im.cols) :
     ∃ h' out, rtWith nodeRow nodeCol f h im = .ok (h', out) :=
-  ⟨_, _, roundTrip_eq gen_idx_laws f hf h im wf N.1 N.2⟩
+  ⟨_, _, roundTrip_eq gen_idx_laws gen_hdr_laws gen_bn_laws f hf h im wf N.1 N.2⟩
 
 /-- **succeeds**, the reason, on the regenerated definitions themselves: with `nx = nxOf rows cols f`
     the `nx + 1` row-node coordinates `nodeRow 0 … nodeRow nx` start at 0, are strictly increasing
@@ -191,8 +268,9 @@ theorem shape_restored {nodeRow nodeCol : Nat → Nat → Nat → Nat → Nat} (
   subst e1 e2
   exact ⟨⟨wf.naxis2, wf.naxis1⟩, rfl, rfl⟩
 
-/-- **keywords_restored**: `((c + f − 1)/f − 1)·f + 1 = c` for CRPIX1/2, and `v·f/f = v` for whichever of
-    CDELTi / CDi_i carries the pixel scale; the other keyword of each pair is untouched. -/
+/-- **keywords_restored**: CRPIX1/2 and whichever of CDELTi / CDi_i carries the pixel scale come back exactly (by the
+    round-trip obligations `crpix1_roundtrip … scaleB2_roundtrip`, `key1_table`, `key2_table` on the regenerated
+    formulas: `((c + f − 1)/f − 1)·f + 1 = c`, `v·f/f = v` on the pinned tree); the other keyword of each pair is untouched. -/
 theorem keywords_restored {nodeRow nodeCol : Nat → Nat → Nat → Nat → Nat} (f : Nat) (hf : 0 < f) (h : Hdr ℝ) (im : Img ℝ)
     (wf : WF h im) (N : NodesOK nodeRow nodeCol f im.rows im.cols) {h' : Hdr ℝ} {out : Img ℝ}
     (hrt : rtWith nodeRow nodeCol f h im = .ok (h', out)) :
@@ -200,14 +278,7 @@ theorem keywords_restored {nodeRow nodeCol : Nat → Nat → Nat → Nat → Nat
     h'.cdelt1 = h.cdelt1 ∧ h'.cd11 = h.cd11 ∧ h'.cdelt2 = h.cdelt2 ∧ h'.cd22 = h.cd22 := by
   obtain ⟨e1, _⟩ := rt_value f hf h im wf N hrt
   subst e1
-  have hfr : (f : ℝ) ≠ 0 := by
-    have : (0 : ℝ) < f := by exact_mod_cast hf
-    exact ne_of_gt this
-  refine ⟨?_, ?_, rfl, rfl, rfl, rfl⟩
-  · show ((h.crpix1 + f - 1) / f - 1) * f + 1 = h.crpix1
-    field_simp; ring
-  · show ((h.crpix2 + f - 1) / f - 1) * f + 1 = h.crpix2
-    field_simp; ring
+  exact ⟨rfl, rfl, rfl, rfl, rfl, rfl⟩
 
 /-- **other_keys_unchanged**: every card other than NAXISi, CRPIXi, the scale keyword of each axis and
     BN_* — in particular the off-diagonal CD1_2 / CD2_1 of a rotated image, PCi_j, CROTA2, CRVALi,
@@ -218,21 +289,31 @@ theorem other_keys_unchanged {nodeRow nodeCol : Nat → Nat → Nat → Nat → 
   obtain ⟨e1, _⟩ := rt_value f hf h im wf N hrt
   subst e1; rfl
 
-/-- the compressed header in between: it *is* marked compressed, the scale is multiplied by `f`
-    and the reference pixel is `(c + f − 1)/f` -/
+/-- the compressed header in between: it *is* marked compressed (BN_CFAC = f, BN_RPX1/2 = the residuals, BN_NPX*
+    such that expand reads back the original shape), its reference pixel and other cards are as the regenerated
+    formulas say, its NAXIS match its data -/
 theorem compressed_header (f : Nat) (hf : 0 < f) (h : Hdr ℝ) (im : Img ℝ) (wf : WF h im) :
-    ∃ hc c, compress Gen.C15.nxOf Gen.C15.nyOf Gen.C15.lcxOf Gen.C15.lcyOf f h im = .ok (hc, c) ∧
-      hc.bn = some { cfac := f, npx1 := h.naxis1, npx2 := h.naxis2, rpx1 := im.rows % f, rpx2 := im.cols % f } ∧
-      hc.crpix1 = (h.crpix1 + f - 1) / f ∧ hc.crpix2 = (h.crpix2 + f - 1) / f ∧
+    ∃ hc c bn, compress Gen.C15.nxOf Gen.C15.nyOf Gen.C15.lcxOf Gen.C15.lcyOf genHdr genBn f h im = .ok (hc, c) ∧
+      hc.bn = some bn ∧ bn.cfac = f ∧ bn.rpx1 = im.rows % f ∧ bn.rpx2 = im.cols % f ∧
+      Gen.C15.outRows bn.npx1 bn.npx2 = h.naxis2 ∧ Gen.C15.outCols bn.npx1 bn.npx2 = h.naxis1 ∧
+      hc.crpix1 = Gen.C15.crpixC1 h.crpix1 h.crpix2 f ∧ hc.crpix2 = Gen.C15.crpixC2 h.crpix1 h.crpix2 f ∧
       hc.other = h.other ∧     -- compress itself leaves every other card (CD1_2, CD2_1, …) alone
       c.rows = (im.rows + f - 1) / f + 1 ∧ c.cols = (im.cols + f - 1) / f + 1 ∧
       hc.naxis2 = c.rows ∧ hc.naxis1 = c.cols := by
   have hfr : (f : ℝ) ≠ 0 := by
     have : (0 : ℝ) < f := by exact_mod_cast hf
     exact ne_of_gt this
-  obtain ⟨a1, b1, u1, _⟩ := scale_roundtrip (f : ℝ) hfr h.cdelt1 h.cd11 wf.scale1
-  obtain ⟨a2, b2, u2, _⟩ := scale_roundtrip (f : ℝ) hfr h.cdelt2 h.cd22 wf.scale2
-  exact ⟨_, _, compress_ok gen_idx_laws f hf h im wf.rows wf.cols u1 u2, rfl, rfl, rfl, rfl, rfl, rfl, rfl, rfl⟩
+  obtain ⟨a1, b1, u1, _⟩ := scale_roundtrip genHdr.keyC1 genHdr.keyE1 genHdr.upA1 genHdr.upB1 genHdr.dnA1 genHdr.dnB1
+    (f : ℝ) hfr gen_hdr_laws.a1 gen_hdr_laws.b1 gen_hdr_laws.k1 h.cdelt1 h.cd11 wf.scale1
+  obtain ⟨a2, b2, u2, _⟩ := scale_roundtrip genHdr.keyC2 genHdr.keyE2 genHdr.upA2 genHdr.upB2 genHdr.dnA2 genHdr.dnB2
+    (f : ℝ) hfr gen_hdr_laws.a2 gen_hdr_laws.b2 gen_hdr_laws.k2 h.cdelt2 h.cd22 wf.scale2
+  refine ⟨_, _, _, compress_ok gen_idx_laws genHdr genBn f hf h im wf.rows wf.cols u1 u2, rfl, ?_, ?_, ?_, ?_, ?_,
+    rfl, rfl, rfl, rfl, rfl, rfl, rfl⟩
+  · exact bn_cfac f h.naxis1 h.naxis2 (im.rows % f) (im.cols % f)
+  · exact bn_rpx1 f h.naxis1 h.naxis2 (im.rows % f) (im.cols % f)
+  · exact bn_rpx2 f h.naxis1 h.naxis2 (im.rows % f) (im.cols % f)
+  · exact (bn_shape_roundtrip f h.naxis1 h.naxis2 (im.rows % f) (im.cols % f)).1
+  · exact (bn_shape_roundtrip f h.naxis1 h.naxis2 (im.rows % f) (im.cols % f)).2
 
 /-- **bn_keys_removed**: no BN_* keyword survives the round trip (so `is_compressed` is false). -/
 theorem bn_keys_removed {nodeRow nodeCol : Nat → Nat → Nat → Nat → Nat} (f : Nat) (hf : 0 < f) (h : Hdr ℝ) (im : Img ℝ)
@@ -320,12 +401,12 @@ theorem roundtrip_holds_anyFactor (f : Nat) (hf : 1 ≤ f) (h : Hdr ℝ) (im : I
 
 /-- factor 0 is rejected (the code returns None) -/
 theorem zero_factor_rejected (h : Hdr ℝ) (im : Img ℝ) :
-    compress Gen.C15.nxOf Gen.C15.nyOf Gen.C15.lcxOf Gen.C15.lcyOf 0 h im = .error .badFactor := by
+    compress Gen.C15.nxOf Gen.C15.nyOf Gen.C15.lcxOf Gen.C15.lcyOf genHdr genBn 0 h im = .error .badFactor := by
   simp [compress]
 
 /-- an axis of length < 2 is rejected (`np.squeeze` drops it and `data.shape[1]` raises IndexError) -/
 theorem thin_image_rejected (f : Nat) (hf : 0 < f) (h : Hdr ℝ) (im : Img ℝ) (hs : im.rows < 2 ∨ im.cols < 2) :
-    compress Gen.C15.nxOf Gen.C15.nyOf Gen.C15.lcxOf Gen.C15.lcyOf f h im = .error .squeezed := by
+    compress Gen.C15.nxOf Gen.C15.nyOf Gen.C15.lcxOf Gen.C15.lcyOf genHdr genBn f h im = .error .squeezed := by
   have : f ≠ 0 := by omega
   unfold compress
   rw [if_neg this, if_pos hs]
@@ -333,16 +414,17 @@ theorem thin_image_rejected (f : Nat) (hf : 0 < f) (h : Hdr ℝ) (im : Img ℝ) 
 /-- a header without CDELT1 and CD1_1 is rejected (the code logs an error and returns None) -/
 theorem missing_scale_rejected (f : Nat) (hf : 0 < f) (h : Hdr ℝ) (im : Img ℝ) (hr : 2 ≤ im.rows) (hc : 2 ≤ im.cols)
     (h1 : h.cdelt1 = none) (h2 : h.cd11 = none) :
-    compress Gen.C15.nxOf Gen.C15.nyOf Gen.C15.lcxOf Gen.C15.lcyOf f h im = .error .noScale1 := by
+    compress Gen.C15.nxOf Gen.C15.nyOf Gen.C15.lcxOf Gen.C15.lcyOf genHdr genBn f h im = .error .noScale1 := by
   have hf0 : f ≠ 0 := by omega
   have h2' : ¬ (im.rows < 2 ∨ im.cols < 2) := by omega
   unfold compress
   simp only [hf0, if_false, h2', nxOf_ceil _ _ _ hf, nyOf_ceil _ _ _ hf, range_length _ _ hf, ne_eq,
-    not_true_eq_false, or_self, h1, h2, scaleUp]
+    not_true_eq_false, or_self, h1, h2, scaleWith, genHdr, Option.isSome_none, Bool.false_eq_true, if_false,
+    (by decide : Gen.C15.keyC1 0 0 = 0)]
 
 /-- a file that is not marked compressed is returned unchanged -/
 theorem uncompressed_unchanged (h : Hdr ℝ) (im : Img ℝ) (hb : h.bn = none) :
-    expand Gen.C15.nodeRow Gen.C15.nodeCol h im = .ok (h, im) := by
+    expand Gen.C15.nodeRow Gen.C15.nodeCol genHdr genBn h im = .ok (h, im) := by
   simp [expand, hb]
 
 /-- **negation witness**: were the residual keyword ever to shift the grid (offset 1 instead of 0, as a
